@@ -96,7 +96,7 @@ func c15Oracle(r *SeqRun) []Viol {
 			}
 		}
 	case "close":
-		if !d.IsClosed {
+		if d.ClosedKnown && !d.IsClosed {
 			out = append(out, Viol{Key: "C15/not-closed", What: "Close returned but the cache is not marked closed"})
 		}
 		if d.Daemons != 0 {
